@@ -207,32 +207,65 @@ def run(ctx):
                 for side in A.kids(c_):
                     if A.ref_id(side):
                         zero_tested.add(A.ref_id(side))
+    CMPS19 = ("rtosc_arg_vals_cmp", "rtosc_arg_vals_cmp_single", "rtosc_arg_vals_eq", "rtosc_arg_vals_eq_single")
+
+    def _assigned19(fn_, vid):
+        out = []
+        for y in A.walk(u.body(fn_)):
+            if y.get("kind") == "BinaryOperator" and y.get("opcode") == "=" and A.ref_id(A.kids(y)[0]) == vid:
+                out.append(A.kids(y)[1])
+            elif y.get("kind") == "VarDecl" and y.get("id") == vid and A.kids(y):
+                out.append(A.kids(y)[-1])
+        return out
+
+    def _cmp_sources(e, fn_, depth=0):
+        """the comparison calls an expression's value comes from: directly, through the arms of a conditional, through a local
+        of fn_, or through the return value of a file-local helper"""
+        e = A.strip_casts(e)
+        k_ = e.get("kind")
+        if depth > 4:
+            return []
+        if k_ == "CallExpr":
+            nm_ = A.callee_name(e)
+            if nm_ in CMPS19:
+                return [e]
+            hs = [g_ for g_ in u.functions.get(nm_ or "", []) if u.body(g_) is not None and g_.get("storageClass") == "static"]
+            out = []
+            if len(hs) == 1:
+                for r_ in A.walk(u.body(hs[0])):
+                    if r_.get("kind") == "ReturnStmt" and A.kids(r_):
+                        out += _cmp_sources(A.kids(r_)[0], hs[0], depth + 1)
+            return out
+        if k_ == "ConditionalOperator":
+            return _cmp_sources(A.kids(e)[1], fn_, depth + 1) + _cmp_sources(A.kids(e)[2], fn_, depth + 1)
+        if k_ == "DeclRefExpr" and (e.get("referencedDecl") or {}).get("kind") == "VarDecl":
+            out = []
+            for v_ in _assigned19(fn_, e["referencedDecl"]["id"]):
+                out += _cmp_sources(v_, fn_, depth + 1)
+            return out
+        return []
     n19 = 0
-    for y in A.walk(u.body(fd19)):
-        tgt, val = None, None
-        if y.get("kind") == "BinaryOperator" and y.get("opcode") == "=":
-            tgt, val = A.ref_id(A.kids(y)[0]), A.kids(y)[1]
-        elif y.get("kind") == "VarDecl" and A.kids(y):
-            tgt, val = y.get("id"), A.kids(y)[-1]
-        if tgt is None or tgt not in zero_tested:
-            continue
-        v_ = A.strip_casts(val)
-        if v_.get("kind") != "CallExpr" or A.callee_name(v_) not in ("rtosc_arg_vals_cmp", "rtosc_arg_vals_cmp_single", "rtosc_arg_vals_eq", "rtosc_arg_vals_eq_single"):
-            continue
-        n19 += 1
-        opt = A.strip_casts(A.kids(v_)[-1])
-        exact = opt.get("kind") in ("GNUNullExpr", "CXXNullPtrLiteralExpr") or A.int_literal(opt) == 0 or A.src(opt).strip("() ") in ("NULL", "(void *)0", "(void*)0", "0")
-        if not exact:
-            # options with a tolerance of zero are exact as well
-            lits = [z for z in A.walk(opt) if z.get("kind") == "FloatingLiteral"]
-            od = u.by_id.get(A.ref_id(A.kids(opt)[0])) if opt.get("kind") == "UnaryOperator" and opt.get("opcode") == "&" and A.ref_id(A.kids(opt)[0]) else None
-            if od is not None:
-                lits = [z for z in A.walk(od) if z.get("kind") == "FloatingLiteral"]
-            if lits and all(float(z.get("value")) == 0.0 for z in lits):
-                exact = True
-        ctx.ob("R11.19", "delta_from_arg_vals: zero-step test@%s" % A.loc(v_)[1], exact, site=A.where(v_), detail={"options": A.src(A.kids(v_)[-1])[:60]},
-               key="R11.19:zero-step",
-               what="delta_from_arg_vals decides `the step is zero` with tolerance options (`%s`): a float range whose step is within the tolerance (`0.0 0.0005 ... 0.002`) is read as a range without step - the checker rejects text the printer wrote, or both readers silently drop the step" % A.src(A.kids(v_)[-1])[:40])
+    seen19 = set()
+    for vid19 in sorted(zero_tested):
+        for val in _assigned19(fd19, vid19):
+            for v_ in _cmp_sources(val, fd19):
+                if v_.get("id") in seen19:
+                    continue
+                seen19.add(v_.get("id"))
+                n19 += 1
+                opt = A.strip_casts(A.kids(v_)[-1])
+                exact = opt.get("kind") in ("GNUNullExpr", "CXXNullPtrLiteralExpr") or A.int_literal(opt) == 0 or A.src(opt).strip("() ") in ("NULL", "(void *)0", "(void*)0", "0")
+                if not exact:
+                    # options with a tolerance of zero are exact as well
+                    lits = [z for z in A.walk(opt) if z.get("kind") == "FloatingLiteral"]
+                    od = u.by_id.get(A.ref_id(A.kids(opt)[0])) if opt.get("kind") == "UnaryOperator" and opt.get("opcode") == "&" and A.ref_id(A.kids(opt)[0]) else None
+                    if od is not None:
+                        lits = [z for z in A.walk(od) if z.get("kind") == "FloatingLiteral"]
+                    if lits and all(float(z.get("value")) == 0.0 for z in lits):
+                        exact = True
+                ctx.ob("R11.19", "delta_from_arg_vals: zero-step test@%s" % A.loc(v_)[1], exact, site=A.where(v_), detail={"options": A.src(A.kids(v_)[-1])[:60]},
+                       key="R11.19:zero-step",
+                       what="delta_from_arg_vals decides `the step is zero` with tolerance options (`%s`): a float range whose step is within the tolerance (`0.0 0.0005 ... 0.002`) is read as a range without step - the checker rejects text the printer wrote, or both readers silently drop the step" % A.src(A.kids(v_)[-1])[:40])
     ctx.require(n19 >= 1, "R11.19: no comparison feeding the zero-step test of delta_from_arg_vals was found")
     ctx.rule("R11.11", "NULL-BUFFER-SCAN: the checker calls the scanner without a string buffer (NULL) only for a token it knows to be numeric - the call is unreachable when the range's type is not one of the numeric range types - because strings, symbols and blobs are stored through that buffer")
     from .C19 import _guards as _g19
